@@ -209,7 +209,9 @@ def run_job(prog, job, tier, seed):
                     chk.violation(f"C14 marker {role}", f"extensible index {ext} for {r} root items, marker={marker}", {'kind': 'marker', 'role': role})
                 # emitted discriminants
                 if ts is None:
-                    chk.res.inconclusive.append(f"format_enum_members failed for {role}")
+                    # the generator rejects an enumeration the lexer's numbering accepted: confirmed natively below if the same text
+                    # yields no enum; otherwise the harness could not read the result
+                    report_rejected(chk, role, rexp, aexp, marker, chk.model_of(res.pc))
                     continue
                 vs = variants_of(ts)
                 if [v[0] for v in vs] != names:
@@ -286,6 +288,26 @@ def report(chk, role, rexp, aexp, marker, m, got, want, oracle):
         chk.violation(f"C14 {oracle} {role}", f"{text}: generated numbers {natv}, X.680 20 assigns {wantv}", {'kind': 'enum', 'text': text, 'expected': wantv, 'native': natv})
     else:
         chk.res.inconclusive.append(f"counterexample did not reproduce natively ({role} {oracle}): {text} native {natv} expected {wantv}")
+
+
+def report_rejected(chk, role, rexp, aexp, marker, m):
+    """the generator returned Err for an enumeration whose numbering is valid: replay the text natively"""
+    if m is None:
+        chk.res.inconclusive.append(f"format_enum_members failed for {role} (no model)")
+        return
+    rv = [None if e is None else model_int(m, e) for e in rexp]
+    av = [None if e is None else model_int(m, e) for e in aexp]
+    text = enum_text(rv, av, marker)
+    runner = native.Runner()
+    try:
+        nat, out = native_numbers(runner, text)
+    finally:
+        runner.close()
+    if nat is None and out.get('ok'):
+        w = [x.get('display') for x in out.get('warnings', [])][:1]
+        chk.violation(f"C14 rejected {role}", f"{text}: a valid enumeration is not generated at all {w}", {'kind': 'text', 'text': text})
+    else:
+        chk.res.inconclusive.append(f"format_enum_members failed in the kernel but not natively ({role}): {text}")
 
 
 def run_diff(prog, chk, tier, seed):
